@@ -21,6 +21,8 @@ pub struct Cfg {
     pub burst: bool,
     pub reentrant: bool,
     pub passive: bool,
+    pub max_react: usize,
+    pub cross: bool,
     pub nsinks: usize,
 }
 
@@ -65,6 +67,8 @@ pub struct SinkSt {
     pub disposed: bool,
     pub pulls: usize,
     pub credit: usize,
+    /// deliveries to this sink in progress
+    pub busy: usize,
 }
 
 impl SinkSt {
@@ -111,7 +115,10 @@ pub struct Inner {
     /// C13: owner (sink number) of the top-level step in progress, per event / per decision
     pub cur_owner: usize,
     pub obs_own: Vec<usize>,
-    pub script_own: Vec<usize>,
+    /// decisions attributed to the subscription that would make them on its own (C13)
+    pub script_proj: Vec<(usize, Value)>,
+    /// number of top-level actions performed so far (a cross action nested in a handler counts)
+    pub ntop: usize,
     /// component name -> name it would have if its owner were the only subscriber
     pub norm: std::collections::HashMap<String, String>,
     pub norm_cnt: std::collections::HashMap<(usize, String), usize>,
@@ -120,9 +127,13 @@ pub struct Inner {
 
 pub type Kicker = Arc<dyn Fn(usize, usize) + Send + Sync>;
 
+pub type TopAction = Arc<dyn Fn(&str, &str) + Send + Sync>;
+
 pub struct Env {
     /// set by the graph builder: makes instance (env index, puppet id) emit one datum now
     pub kicker: Mutex<Option<Kicker>>,
+    /// set by the driver: performs a top-level action (act, component)
+    pub top_action: Mutex<Option<TopAction>>,
     inner: Mutex<Inner>,
     /// run at the end of a run to break the Arc cycles between harness peers and crate closures
     cleaners: Mutex<Vec<Box<dyn Fn() + Send + Sync>>>,
@@ -177,6 +188,7 @@ impl Env {
         }
         Arc::new(Env {
             kicker: Mutex::new(None),
+            top_action: Mutex::new(None),
             inner: Mutex::new(Inner {
                 cfg,
                 obs: vec![],
@@ -193,7 +205,8 @@ impl Env {
                 max_depth: 0,
                 cur_owner: 0,
                 obs_own: vec![],
-                script_own: vec![],
+                script_proj: vec![],
+                ntop: 0,
                 norm: Default::default(),
                 norm_cnt: Default::default(),
                 name_owner: Default::default(),
@@ -209,6 +222,7 @@ impl Env {
     /// drop everything big and break reference cycles (a run's closures are otherwise never freed)
     pub fn cleanup(&self) {
         *self.kicker.lock().unwrap_or_else(|e| e.into_inner()) = None;
+        *self.top_action.lock().unwrap_or_else(|e| e.into_inner()) = None;
         let cl: Vec<_> = std::mem::take(&mut *self.cleaners.lock().unwrap_or_else(|e| e.into_inner()));
         for f in cl.iter() {
             f();
@@ -217,7 +231,7 @@ impl Env {
         g.obs = vec![];
         g.script = vec![];
         g.obs_own = vec![];
-        g.script_own = vec![];
+        g.script_proj = vec![];
         g.norm.clear();
         g.name_owner.clear();
         g.decider = Decider::Dfs { prefix: vec![], pos: 0, trail: vec![] };
@@ -328,15 +342,16 @@ impl Env {
         };
         let ch = opts[idx].to_string();
         let o = g.cur_owner;
-        g.script_own.push(o);
-        if kind == "top" {
+        let entry = if kind == "top" {
             match ch.split_once(' ') {
-                Some((act, c)) => g.script.push(json!(["top", c, act])),
-                None => g.script.push(json!(["top", "", ch])),
+                Some((act, c)) => json!(["top", c, act]),
+                None => json!(["top", "", ch]),
             }
         } else {
-            g.script.push(json!([kind, comp, ch]));
-        }
+            json!([kind, comp, ch])
+        };
+        g.script.push(entry.clone());
+        g.script_proj.push((o, entry));
         ch
     }
 
